@@ -94,6 +94,43 @@ Proof.
   rewrite <- skipn_skipn'. apply firstn_skipn.
 Qed.
 
+(* an offset at or beyond the end gives an empty page, whatever the limit *)
+Lemma slice_beyond {A} : forall (l : list A) off lim, (length l <= N.to_nat off)%nat -> slice off lim l = [].
+Proof.
+  intros l off lim H. unfold slice, take_lim. rewrite skipn_all2 by exact H.
+  destruct (lim =? 0); [reflexivity|apply firstn_nil].
+Qed.
+
+(* a limit at least as large as what is left returns all that is left *)
+Lemma slice_large {A} : forall (l : list A) off lim, (length l <= N.to_nat off + N.to_nat lim)%nat ->
+  slice off lim l = slice off 0 l.
+Proof.
+  intros l off lim H. unfold slice, take_lim. cbn [N.eqb].
+  destruct (lim =? 0); [reflexivity|]. apply firstn_all2. rewrite skipn_length. lia.
+Qed.
+
+Lemma pages_prefix {A} : forall (l : list A) lim, 0 < lim -> forall n off,
+  concat (map (fun i => slice (off + N.of_nat i * lim) lim l) (seq 0 n)) ++ slice (off + N.of_nat n * lim) 0 l
+  = slice off 0 l.
+Proof.
+  intros l lim Hl. induction n as [|n IH]; intros off.
+  - cbn [seq map concat app]. f_equal. lia.
+  - rewrite seq_S, map_app, concat_app. cbn [map concat plus]. rewrite app_nil_r, <- app_assoc.
+    replace (off + N.of_nat (S n) * lim) with (off + N.of_nat n * lim + lim) by lia.
+    rewrite slice_tiling by exact Hl. apply IH.
+Qed.
+
+(* reading the listing page by page with a fixed positive limit returns every matching document exactly once, in order:
+   the concatenation of the first n pages is the whole listing as soon as n pages reach its end *)
+Theorem pages_cover {A} : forall (l : list A) lim n, 0 < lim -> (length l <= n * N.to_nat lim)%nat ->
+  concat (map (fun i => slice (N.of_nat i * lim) lim l) (seq 0 n)) = l.
+Proof.
+  intros l lim n Hl Hn. pose proof (pages_prefix l lim Hl n 0) as H.
+  rewrite (slice_beyond l (0 + N.of_nat n * lim) 0) in H by lia. rewrite app_nil_r in H.
+  rewrite <- (map_ext (fun i => slice (0 + N.of_nat i * lim) lim l)) by (intros; f_equal; lia).
+  rewrite H. reflexivity.
+Qed.
+
 Theorem listing_order : forall s flt docs,
   sorted_docs s = Ok docs ->
   listing s flt 0 0 = Ok (filter (accepts flt) docs).
